@@ -112,7 +112,7 @@ def run_unit(u):
                 b.add("input", enc_input(num, p, text))
                 qs = b.add("sentence", CHART_FUEL)
                 qd = [b.add("derives", 1, enc_tree(num, t)) for t in trees]
-                checks.append((case, impl, qs, qd, trees, b.add("glr", 4000), impl_glr))
+                checks.append((case, impl, qs, qd, trees, b.add("glr", 4000, 1, 0), impl_glr))
             out = b.run()
             st["traces"] += len(checks)
             if out[qwf] != "wf 1":
@@ -122,7 +122,7 @@ def run_unit(u):
                 sent = out[qs]
                 # the GLR driver model (Model/GLR.lean): acceptance and the exact set of packed alternatives
                 mg = parse_glr_reply(out[qg])
-                if isinstance(mg, str) and mg in ("lexamb", "fuel"):
+                if isinstance(mg, str) and mg in ("ordersens", "fuel"):
                     bump(st, "glr_model_" + mg)
                     model_agrees = True
                 else:
